@@ -319,6 +319,21 @@ func (t *table) tombstoneFirst(ix index, key string) bool {
 	return !nn || k != key
 }
 
+// everHeld: some other primary key held this unique key in the past.
+func (t *table) everHeld(ix index, key, pk string) bool {
+	for opk, vs := range t.versions {
+		if opk == pk {
+			continue
+		}
+		for _, v := range vs {
+			if k, nn := projKey(ix, v); nn && k == key {
+				return true
+			}
+		}
+	}
+	return false
+}
+
 // firstPKDead describes known finding K12c: the table has live rows but the
 // smallest primary key ever stored is not live.
 func (t *table) firstPKDead() bool {
@@ -571,6 +586,7 @@ type must struct {
 	class string // pk, unique, notnull, check, length, unique-index-over-duplicates
 	what  string
 	known string // known-finding id whose class this is ("" = none)
+	soft  bool   // a violation only by the engine's own NULL semantics: counts only while the known finding is excluded
 }
 
 type outcome struct {
@@ -580,6 +596,16 @@ type outcome struct {
 	resync    bool     // effect of an accepted statement is not modelled
 	stopCase  bool     // an accepted statement leaves the declared constraints undefined
 	endTx     bool     // the reference cannot follow the rest of the transaction: it ends here
+	notes     []string // shapes worth counting (labels)
+}
+
+func (o *outcome) note(s string) {
+	for _, n := range o.notes {
+		if n == s {
+			return
+		}
+	}
+	o.notes = append(o.notes, s)
 }
 
 func (o *outcome) must(class, known, format string, args ...any) {
@@ -591,11 +617,31 @@ func (o *outcome) may(s string) { o.mays = append(o.mays, s) }
 // known finding that is currently excluded).
 func (o *outcome) soundMust(excluded func(string) bool) *must {
 	for i := range o.musts {
+		if o.musts[i].soft {
+			continue
+		}
 		if o.musts[i].known == "" || !excluded(o.musts[i].known) {
 			return &o.musts[i]
 		}
 	}
 	return nil
+}
+
+// knownOnly: the statement is in the class of an excluded known finding and
+// nothing else makes the engine refuse it.
+func (o *outcome) knownOnly(excluded func(string) bool) []string {
+	if o.soundMust(excluded) != nil {
+		return nil
+	}
+	var ids []string
+	seen := map[string]bool{}
+	for _, m := range o.musts {
+		if m.known != "" && excluded(m.known) && !seen[m.known] {
+			seen[m.known] = true
+			ids = append(ids, m.known)
+		}
+	}
+	return ids
 }
 
 func (o *outcome) classes() []string {
@@ -664,6 +710,10 @@ func (t *table) validateRow(r row, o *outcome, updateNull map[int]bool, checkKno
 			o.must("check", checkKnown, "CHECK (%s) false for %s", ck.e.sql(t), fmtRow(t, r))
 		case tUnk:
 			o.may("check depends on NULL")
+			if checkKnown != "" {
+				// nothing evaluates the CHECK here (known finding): the engine's own SELECT … WHERE NOT (check) would show the row
+				o.musts = append(o.musts, must{class: "check", known: checkKnown, soft: true, what: "CHECK (" + ck.e.sql(t) + ") undetermined for " + fmtRow(t, r)})
+			}
 		}
 	}
 }
@@ -701,6 +751,9 @@ func (t *table) uniqueCheck(pk string, r row, old row, o *outcome) {
 				}
 				break
 			}
+		}
+		if !conflict && nn && t.everHeld(ix, key, pk) {
+			o.note("unique-key-reused-after-delete-or-move")
 		}
 		tk := ixName(t, ix) + "=" + key
 		if !conflict && (t.txKeys[tk] || t.txFreed[tk]) {
@@ -836,6 +889,9 @@ func (t *table) applyInsert(s *stmt, o *outcome) {
 			return
 		}
 		existing, exists := t.rows[pk]
+		if !exists && len(t.versions[pk]) > 0 {
+			o.note("primary-key-reinserted-after-delete")
+		}
 		if !exists && t.txDeleted[pk] && s.kind != kUpsert {
 			// the engine's conflict lookup still finds the key this transaction deleted: INSERT is refused,
 			// ON CONFLICT takes the conflict branch (in-transaction visibility, not a constraint matter)
